@@ -71,8 +71,9 @@ def do_import(prop, mname, src):
             meta["confirm_note"] = "patch does not apply on the fixed tree: " + msg[-500:]
         else:
             # store the patch as it applies to the current tree
-            diff = sh("git -C %s diff HEAD -- src" % wt).stdout
-            open(os.path.join(dst, "patch.diff"), "w").write(diff)
+            # bytes, not text: some files of the repository have CRLF line endings
+            diff = subprocess.run("git -C %s diff HEAD -- src" % wt, shell=True, stdout=subprocess.PIPE).stdout
+            open(os.path.join(dst, "patch.diff"), "wb").write(diff)
             r1 = sh("/venv/bin/python %s/demo.py" % dst, env=e, cwd=wt)
             rt = sh("/venv/bin/python -m pytest -q -p no:cacheprovider --timeout=900 -x tests 2>&1 | tail -3", env=e, cwd=wt)
             meta["confirm"] = {
